@@ -120,4 +120,29 @@ Section Steps.
     leaf e (rp r) = Some (t, VSlice (Some l)) -> bytes_of_vals l = Some b ->
     step (mks prog pc fl r rest o k rqs) = Running (mks prog (S pc) fl r rest (([34%N] ++ base64 b ++ [34%N]) :: o) k rqs).
   Proof. intros pc r o k t l b H Hl Hb. one H. rewrite Hl, Hb. reflexivity. Qed.
+  Lemma step_cond_set : forall pc r o k, nth_error prog pc = Some OP_cond_set ->
+    step (mks prog pc fl r rest o k rqs) =
+    Running (mks prog (S pc) fl {| rx := rx r; rcond := true; rinit := rinit r; rp := rp r; rq := rq r |} rest o k rqs).
+  Proof. intros. one H. reflexivity. Qed.
+
+  Lemma step_cond_testc : forall pc r o k l, nth_error prog pc = Some (OP_cond_testc l) ->
+    step (mks prog pc fl r rest o k rqs) =
+    Running (mks prog (if rcond r then l else S pc) fl
+                 {| rx := rx r; rcond := false; rinit := rinit r; rp := rp r; rq := rq r |} rest o k rqs).
+  Proof. intros pc r o k l H. one H. destruct r as [x c i p q]. destruct c; reflexivity. Qed.
+
+  (* OP_recurse: EncodeTypedPointer on the same cursor, in a new frame *)
+  Lemma step_recurse : forall pc r o k vt pv prog',
+    nth_error prog pc = Some (OP_recurse vt pv) ->
+    compile e co vt (has_opts (if pv then set_bit fl (b_recurse P) else clear_bit fl (b_recurse P)) BitPointerValue) = COk prog' ->
+    step (mks prog pc fl r rest o k rqs) =
+    Running (mks prog' 0 (if pv then set_bit fl (b_recurse P) else clear_bit fl (b_recurse P)) (regs0 (rp r)) (mkf prog (S pc) fl r :: rest) o k
+                 ((vt, has_opts (if pv then set_bit fl (b_recurse P) else clear_bit fl (b_recurse P)) BitPointerValue) :: rqs)).
+  Proof. intros pc r o k vt pv prog' H Hc. one H. unfold call. rewrite Hc. reflexivity. Qed.
+
+  (* the end of a nested program: Execute returns to the caller's frame *)
+  Lemma step_return : forall prog' pc' fl' r' f2 rest2 o k, nth_error prog' pc' = None ->
+    step {| frames := mkf prog' pc' fl' r' :: f2 :: rest2; out := o; stk := k; reqs := rqs |} =
+    Running {| frames := f2 :: rest2; out := o; stk := k; reqs := rqs |}.
+  Proof. intros. unfold VM.step, mkf. cbn [frames fprog fpc]. rewrite H. reflexivity. Qed.
 End Steps.
